@@ -1,6 +1,6 @@
-\* as closest_w3 + the two formulations of the walk agree (thorough)
+\* closest_nodes walk = brute force, complete graph over seven 4 bit identifiers (thorough)
 SPECIFICATION Spec
-CONSTANTS W = 3 Bits <- SeqBits Cap = 2 MyNum = 5 IdNums = {0, 1, 2, 3, 4, 5, 6, 7}
+CONSTANTS W = 4 Bits <- SeqBits Cap = 2 MyNum = 5 IdNums = {5, 4, 7, 6, 1, 12, 13}
           RTTs = {0} Addrs = {1} AddBads = {FALSE, TRUE} KMax = 3 MaxDepth = 0
           WithGen = FALSE GenInBucket = TRUE OwnPathOnly = TRUE
 INVARIANT TypeOK
@@ -11,6 +11,5 @@ INVARIANT Capacity
 INVARIANT OwnPathShape
 INVARIANT GeneratedIdInBucket
 INVARIANT ClosestExact
-INVARIANT WalkFormulations
 INVARIANT FirstDiffAgree
 PROPERTY SplitOnlyOwnPath
